@@ -24,6 +24,7 @@ Clause(e) ==
          THEN "ok" ELSE "sorting"
     [] e.op = "hz_a4" -> IF e.ok /\ Small(e.out) THEN "ok" ELSE "standard-pitch"
     [] e.op = "hz_octave" -> IF e.ok /\ Small(e.out) THEN "ok" ELSE "octave-doubling"
+    [] e.op = "hz_spelling" -> IF e.ok /\ Small(e.out) THEN "ok" ELSE "frequency-is-a-function-of-pitch"     \* to_hertz(name, octave) = to_hertz(from_int(pitch number))
     [] e.op = "hz_roundtrip" -> IF e.ok /\ e.out = e.in.i THEN "ok" ELSE "hertz-round-trip"
     [] e.op = "helmholtz" -> IF e.ok /\ e.out.n = e.in.n /\ e.out.o = e.in.o THEN "ok" ELSE "helmholtz-round-trip"
     [] e.op = "velocity" ->
